@@ -149,6 +149,11 @@ type genState struct {
 	destroyed [nAppFaces]bool
 	nDestroy  int
 	weights   []int // nil: the default mix of command kinds
+	// allowInternal: routes may name the internal (management) face. Interests of any name
+	// under such a route reach the management thread, which must still act only on those
+	// under its own prefixes (seeded defect C17-r3-2 made it act on all of them).
+	allowInternal bool
+	intRoutes     []string // two-component prefixes that some generated command routes towards the management face
 }
 
 type routeKeyS struct {
@@ -205,10 +210,13 @@ func (g *genState) fid(label string, allowAbsent bool) string {
 	// never the internal (management) face: a route towards it lets Interests of any name
 	// reach the management thread, and which of them do then depends on the RIB->FIB
 	// flattening (C06); the directed regression case localhop-disabled-but-routed covers it
-	opts := []string{"", "0", "own", "fk", "nx", "max", "null"}
-	w := []int{4, 1, 3, 6, 2, 1, 1}
+	opts := []string{"", "0", "own", "fk", "nx", "max", "null", "int"}
+	w := []int{4, 1, 3, 6, 2, 1, 1, 0}
 	if !allowAbsent {
 		w[0] = 0
+	}
+	if g.allowInternal {
+		w[7] = 2
 	}
 	s := weighted(g.t, label, opts, w)
 	if s == "fk" {
@@ -236,6 +244,9 @@ func (g *genState) genOp() Op {
 		op.P.Cost = optU(t, "cost", 50, []uint64{0, 1, 7, 10, 1<<64 - 1})
 		op.P.Flags = optU(t, "flags", 40, []uint64{0, 1, 2, 3})
 		op.P.Exp = optU(t, "exp", 30, []uint64{3600000, 86400000})
+		if g.allowInternal && pct(t, "toInternal", 40) {
+			op.P.Fid = "int"
+		}
 		if len(g.routes) > 0 && pct(t, "reregister", 35) {
 			// re-register an existing (prefix, face, origin) with freshly drawn optional fields:
 			// every field of the stored route must follow the new command, absent ones included
@@ -244,6 +255,16 @@ func (g *genState) genOp() Op {
 			op.P.Name, op.P.Fid, op.P.Org = sp(r.name), r.fid, r.org
 		}
 		g.routes = append(g.routes, routeKeyS{*op.P.Name, op.P.Fid, op.P.Org})
+		if op.P.Fid == "int" {
+			switch cs := comps(*op.P.Name); len(cs) {
+			case 0:
+				g.intRoutes = append(g.intRoutes, "/x/nfd", "/example/nfd")
+			case 1:
+				g.intRoutes = append(g.intRoutes, *op.P.Name+"/nfd")
+			case 2:
+				g.intRoutes = append(g.intRoutes, *op.P.Name)
+			}
+		}
 	case "rib-unreg":
 		op.Mod, op.Verb = "rib", "unregister"
 		if len(g.routes) > 0 && pct(t, "existing", 70) {
@@ -478,6 +499,10 @@ func (g *genState) genOp() Op {
 		op.Face = pick(t, "face", []int{2, 2, 4})
 	default:
 		op.Pfx = pick(t, "pfx", otherPrefixes)
+		if len(g.intRoutes) > 0 && pct(t, "routedpfx", 75) {
+			// a two-component prefix that an earlier command routed towards the management face
+			op.Pfx = pick(t, "routedpfxname", g.intRoutes)
+		}
 		if !ownTarget {
 			op.Face = pick(t, "face", []int{0, 1, 2, 3})
 		}
@@ -510,7 +535,7 @@ func genCaseW(t *rapid.T, weights []int) Case {
 		maxOps = 24
 	}
 	n := 1 + uni(t, "nops", maxOps)
-	g := &genState{t: t, c: &c, weights: weights}
+	g := &genState{t: t, c: &c, weights: weights, allowInternal: pct(t, "allowInternal", 40)}
 	for i := 0; i < n; i++ {
 		op := g.genOp()
 		// lets the shrinker delete any single command (all-zero bits = dropped)
